@@ -101,12 +101,83 @@ Fixpoint expr_text (segs : list seg) (tail : string) : string :=
   | s :: r => sg_pre s ++ String ch_open (sg_ws1 s ++ sg_g s ++ sg_ws2 s ++ String ch_close (expr_text r tail))
   end.
 
+(* the bracket of a segment as written *)
+Definition seg_bracket (s : seg) : string := String ch_open (sg_ws1 s ++ sg_g s ++ sg_ws2 s ++ String ch_close "").
+
 (* the expression with every bracket replaced by the corresponding text *)
 Fixpoint expr_subst (segs : list seg) (ts : list string) (tail : string) : string :=
   match segs, ts with
   | s :: r, t :: ts' => sg_pre s ++ t ++ expr_subst r ts' tail
   | _, _ => tail
   end.
+
+(* ================================================================== EVERY string: the matches of the regular expression *)
+(* a string cut at the matches of \[\s*(.+?)?\s*\] , left to right, non-overlapping (what re.sub iterates over) *)
+Inductive piece :=
+| PLit (c : ascii)                 (* a character outside every match *)
+| PBr (m g : string)               (* a match: m = group(0), g = group(1) *)
+| PBrNone (m : string).            (* a match `[ws]` without group *)
+
+Definition piece_src (p : piece) : string :=
+  match p with PLit c => String c "" | PBr m _ => m | PBrNone m => m end.
+
+Fixpoint scan_f (fuel : nat) (s : string) : list piece :=
+  match fuel with
+  | O => []
+  | S f =>
+      match s with
+      | "" => []
+      | String c r =>
+          if Ascii.eqb c ch_open then
+            match match_bracket r with
+            | BGroup g rest => PBr (matched_text r rest) g :: scan_f f rest
+            | BNoGroup rest => PBrNone (matched_text r rest) :: scan_f f rest
+            | BNoMatch => PLit c :: scan_f f r
+            end
+          else PLit c :: scan_f f r
+      end
+  end.
+Definition scan (s : string) : list piece := scan_f (S (String.length s)) s.
+
+Fixpoint sconcat (l : list string) : string := match l with [] => "" | x :: r => x ++ sconcat r end.
+
+(* the pieces partition the string *)
+Lemma scan_f_partitions fuel : forall s, (String.length s < fuel)%nat -> sconcat (map piece_src (scan_f fuel s)) = s.
+Proof.
+  induction fuel as [|f IH]; intros s L; [lia|].
+  destruct s as [|c r]; [reflexivity|]. cbn [String.length] in L. cbn [scan_f].
+  destruct (Ascii.eqb c ch_open) eqn:Eo.
+  - apply Ascii.eqb_eq in Eo; subst c. destruct (match_bracket r) as [g rest|rest|] eqn:M; cbn [map sconcat piece_src].
+    + pose proof (match_bracket_len _ _ _ M). rewrite IH by lia.
+      destruct (match_bracket_group_shape r g rest M) as (ws1 & ws2 & Er & _ & _).
+      apply (matched_text_rest r rest (ws1 ++ g ++ ws2 ++ String ch_close "")). rewrite Er at 1. rewrite !sapp_assoc. reflexivity.
+    + pose proof (match_bracket_nogroup_len _ _ M). rewrite IH by lia.
+      destruct (match_bracket_nogroup_shape r rest M) as (ws & Er & _).
+      apply (matched_text_rest r rest (ws ++ String ch_close "")). rewrite Er at 1. rewrite sapp_assoc. reflexivity.
+    + rewrite IH by lia. reflexivity.
+  - cbn [map sconcat piece_src]. rewrite IH by lia. reflexivity.
+Qed.
+
+Theorem scan_partitions s : sconcat (map piece_src (scan s)) = s.
+Proof. apply scan_f_partitions. lia. Qed.
+
+(* every match has the shape `[` ws1 g ws2 `]` resp. `[` ws `]` *)
+Lemma scan_f_shapes fuel : forall s, Forall (fun p => match p with
+    | PLit _ => True
+    | PBr m g => exists ws1 ws2, m = String ch_open (ws1 ++ g ++ ws2 ++ String ch_close "") /\
+                                 str_all is_re_space ws1 = true /\ str_all is_re_space ws2 = true /\
+                                 has_char ch_tick m = has_char ch_tick g
+    | PBrNone m => has_char ch_tick m = false
+    end) (scan_f fuel s).
+Proof.
+  induction fuel as [|f IH]; intros s; [constructor|].
+  destruct s as [|c r]; [constructor|]. cbn [scan_f].
+  destruct (Ascii.eqb c ch_open).
+  - destruct (match_bracket r) as [g rest|rest|] eqn:M; constructor; try apply IH; try exact I.
+    + destruct (matched_text_group r g rest M) as (ws1 & ws2 & A & B & C & D). exists ws1, ws2. repeat split; assumption.
+    + destruct (matched_text_nogroup r rest M) as (ws & _ & _ & HT). exact HT.
+  - constructor; [exact I|apply IH].
+Qed.
 
 Section Whole.
   Variable has : label -> bool.
@@ -166,10 +237,15 @@ Section Whole.
   Qed.
 
   (* ---------------- the whole expression, bracket by bracket ---------------- *)
+  (* what a bracket becomes: with a backtick, the callback's text; without one, itself — verbatim (fix 24bdfbd) *)
+  Definition seg_out (s : seg) : outcome string :=
+    if has_char ch_tick (sg_g s) then resolve_group (sg_g s)
+    else Ret (seg_bracket s).
+
   Fixpoint expr_rewritten (segs : list seg) (tail : string) : outcome string :=
     match segs with
     | [] => Ret tail
-    | s :: r => match resolve_group (sg_g s) with
+    | s :: r => match seg_out s with
                 | Raise e => Raise e
                 | Ret t => omap (fun u => sg_pre s ++ t ++ u) (expr_rewritten r tail)
                 end
@@ -184,16 +260,19 @@ Section Whole.
     - cbn [forallb] in Hs. apply andb_true_iff in Hs as [Hs Hr].
       unfold seg_ok in Hs. apply andb_true_iff in Hs as [Hs H4]. apply andb_true_iff in Hs as [Hs H3].
       apply andb_true_iff in Hs as [H1 H2]. apply negb_true_iff in H1.
-      rewrite (rewrite_prefix has locate _ _ H1).
-      rewrite (rewrite_bracket has locate _ _ _ _ H2 H3 H4).
-      rewrite (IH Hr). destruct (resolve_group (sg_g s)) as [t|e]; [|reflexivity].
-      cbn [omap]. rewrite omap_omap. reflexivity.
+      rewrite (rewrite_prefix has locate _ _ H1). unfold seg_out.
+      destruct (has_char ch_tick (sg_g s)) eqn:HT.
+      + rewrite (rewrite_bracket has locate _ _ _ _ H2 H3 H4 HT).
+        rewrite (IH Hr). destruct (resolve_group (sg_g s)) as [t|e]; [|reflexivity].
+        cbn [omap]. rewrite omap_omap. reflexivity.
+      + rewrite (rewrite_bracket_verbatim has locate _ _ _ _ H2 H3 H4 HT).
+        rewrite (IH Hr). rewrite omap_omap. reflexivity.
   Qed.
 
   (* every bracket resolves: the text with every bracket replaced, everything else verbatim *)
   Theorem rewrite_whole_ok segs ts tail :
     forallb seg_ok segs = true -> has_char ch_open tail = false ->
-    Forall2 (fun s t => resolve_group (sg_g s) = Ret t) segs ts ->
+    Forall2 (fun s t => seg_out s = Ret t) segs ts ->
     rewrite (expr_text segs tail) = Ret (expr_subst segs ts tail).
   Proof.
     intros Hs Ht HF. rewrite rewrite_whole by assumption. clear Hs.
@@ -204,8 +283,8 @@ Section Whole.
   (* the first bracket (from the left) whose callback raises decides the outcome; nothing after it matters *)
   Theorem rewrite_whole_first_error segs1 ts s segs2 tail e :
     forallb seg_ok (segs1 ++ s :: segs2) = true -> has_char ch_open tail = false ->
-    Forall2 (fun s t => resolve_group (sg_g s) = Ret t) segs1 ts ->
-    resolve_group (sg_g s) = Raise e ->
+    Forall2 (fun s t => seg_out s = Ret t) segs1 ts ->
+    seg_out s = Raise e ->
     rewrite (expr_text (segs1 ++ s :: segs2) tail) = Raise e.
   Proof.
     intros Hs Ht HF He. rewrite rewrite_whole by assumption. clear Hs.
@@ -216,7 +295,7 @@ Section Whole.
 
   (* ---------------- which exceptions can come out of the rewriter: EVERY string ---------------- *)
   Definition rewrite_exn_ok (e : exn) : Prop :=
-    e = ValueError \/ e = KeyError \/ e = AttributeError \/ exists l, locate l = Raise e.
+    e = ValueError \/ e = KeyError \/ exists l, locate l = Raise e.
 
   Lemma resolve_index_exn p e : resolve_index p = Raise e -> e = ValueError \/ e = KeyError \/ exists l, locate l = Raise e.
   Proof.
@@ -255,18 +334,85 @@ Section Whole.
     destruct s as [|c r]; [discriminate|].
     rewrite (rewrite_f_step has locate f c r).
     destruct (Ascii.eqb c ch_open).
-    - destruct (match_bracket r) as [g rest|rest|].
-      + destruct (resolve_group g) as [t|e'] eqn:E.
+    - destruct (match_bracket r) as [g rest|rest|] eqn:M.
+      + destruct (negb (has_char ch_tick (matched_text r rest))).
         * intros H. apply omap_raise in H. exact (IH _ _ H).
-        * intros H; inversion H; subst. unfold rewrite_exn_ok.
-          destruct (resolve_group_exn g e E) as [X|[X|X]]; auto.
-      + intros H; inversion H. unfold rewrite_exn_ok. auto.
+        * destruct (resolve_group g) as [t|e'] eqn:E.
+          -- intros H. apply omap_raise in H. exact (IH _ _ H).
+          -- intros H; inversion H; subst. exact (resolve_group_exn g e E).
+      + destruct (matched_text_nogroup r rest M) as (ws & _ & _ & HT). rewrite HT. cbn [negb].
+        intros H. apply omap_raise in H. exact (IH _ _ H).
       + intros H. apply omap_raise in H. exact (IH _ _ H).
     - intros H. apply omap_raise in H. exact (IH _ _ H).
   Qed.
 
   Theorem rewrite_exceptions s e : rewrite s = Raise e -> rewrite_exn_ok e.
   Proof. unfold EvalIdx.rewrite. apply rewrite_f_exn. Qed.
+
+  (* ---------------- EVERY string: the rewriter = per-piece action on the matches ---------------- *)
+  (* what each piece becomes: only a match whose text contains a backtick goes through the callback *)
+  Definition piece_out (p : piece) : outcome string :=
+    match p with
+    | PLit c => Ret (String c "")
+    | PBr m g => if has_char ch_tick m then resolve_group g else Ret m
+    | PBrNone m => Ret m
+    end.
+
+  Fixpoint assemble (ps : list piece) : outcome string :=
+    match ps with
+    | [] => Ret ""
+    | p :: r => match piece_out p with
+                | Raise e => Raise e
+                | Ret t => omap (fun u => t ++ u) (assemble r)
+                end
+    end.
+
+  Lemma rewrite_f_assemble fuel : forall s, (String.length s < fuel)%nat -> rewrite_f fuel s = assemble (scan_f fuel s).
+  Proof.
+    induction fuel as [|f IH]; intros s L; [lia|].
+    destruct s as [|c r]; [reflexivity|]. cbn [String.length] in L. rewrite (rewrite_f_step has locate f c r). cbn [scan_f].
+    destruct (Ascii.eqb c ch_open).
+    - destruct (match_bracket r) as [g rest|rest|] eqn:M; cbn [assemble piece_out].
+      + pose proof (match_bracket_len _ _ _ M). rewrite IH by lia.
+        destruct (has_char ch_tick (matched_text r rest)); cbn [negb]; reflexivity.
+      + pose proof (match_bracket_nogroup_len _ _ M).
+        destruct (matched_text_nogroup r rest M) as (ws & _ & _ & HT). rewrite HT. cbn [negb]. rewrite IH by lia. reflexivity.
+      + rewrite IH by lia. reflexivity.
+    - cbn [assemble piece_out]. rewrite IH by lia. reflexivity.
+  Qed.
+
+  (* index_re.sub(resolve_indexes, s), for EVERY string s: cut s at the matches; copy everything; replace exactly the matches
+     that contain a backtick by the callback's text (the leftmost failing one raising) *)
+  Theorem rewrite_is_assemble s : rewrite s = assemble (scan s).
+  Proof. unfold EvalIdx.rewrite, scan. apply rewrite_f_assemble. lia. Qed.
+
+  (* whenever the rewriter succeeds, its output is the concatenation of the per-piece outputs ... *)
+  Lemma assemble_ret ps t : assemble ps = Ret t ->
+    exists ts, Forall2 (fun p u => piece_out p = Ret u) ps ts /\ t = sconcat ts.
+  Proof.
+    revert t; induction ps as [|p r IH]; intros t; cbn [assemble].
+    - intros H; inversion H. exists []. split; [constructor|reflexivity].
+    - destruct (piece_out p) as [u|e] eqn:E; [|discriminate].
+      destruct (assemble r) as [t'|e'] eqn:A; cbn [omap]; [|discriminate].
+      intros H; inversion H; subst t. destruct (IH t' eq_refl) as (ts & F & ->).
+      exists (u :: ts). split; [constructor; assumption|reflexivity].
+  Qed.
+
+  (* ... in which every piece without a backtick — every character outside the matches and EVERY BRACKET WITHOUT A BACKTICK,
+     whatever else the expression contains — stands verbatim: positional_untouched at full strength *)
+  Theorem rewrite_pieces s t :
+    rewrite s = Ret t ->
+    exists ts, Forall2 (fun p u => piece_out p = Ret u) (scan s) ts /\ t = sconcat ts /\
+               Forall2 (fun p u => has_char ch_tick (piece_src p) = false -> u = piece_src p) (scan s) ts.
+  Proof.
+    rewrite rewrite_is_assemble. intros H. destruct (assemble_ret _ _ H) as (ts & F & E).
+    exists ts. split; [exact F|]. split; [exact E|].
+    clear H E. induction F as [|p u r ts' Hpu F IH]; constructor; [|exact IH].
+    intros HT. destruct p as [c|m g|m]; cbn [piece_out piece_src] in *.
+    - inversion Hpu; reflexivity.
+    - rewrite HT in Hpu. inversion Hpu; reflexivity.
+    - inversion Hpu; reflexivity.
+  Qed.
 
   Corollary eval_text_exceptions s e : eval_text s = Raise e -> rewrite_exn_ok e.
   Proof. unfold EvalIdx.eval_text. destruct (has_char ch_tick s); [apply rewrite_exceptions|discriminate]. Qed.
@@ -281,7 +427,7 @@ Section Whole.
   Proof.
     intros Hpre H1 H2 Ht Hc Hcl Hnl R.
     rewrite (rewrite_prefix has locate _ _ Hpre).
-    rewrite (rewrite_bracket has locate _ _ _ _ H1 (wf_group_bt a Hcl Hnl) H2).
+    rewrite (rewrite_bracket has locate _ _ _ _ H1 (wf_group_bt a Hcl Hnl) H2 (proj1 (bt_facts a Hc))).
     rewrite (label_index_rewrite_loc has locate a l Ht Hc R).
     rewrite omap_omap. reflexivity.
   Qed.
@@ -294,7 +440,7 @@ Section Whole.
   Proof.
     intros Hpre H1 H2 Ht Hc Hcl Hnl M.
     rewrite (rewrite_prefix has locate _ _ Hpre).
-    rewrite (rewrite_bracket has locate _ _ _ _ H1 (wf_group_bt a Hcl Hnl) H2).
+    rewrite (rewrite_bracket has locate _ _ _ _ H1 (wf_group_bt a Hcl Hnl) H2 (proj1 (bt_facts a Hc))).
     rewrite (label_missing_KeyError has locate a Ht Hc M). reflexivity.
   Qed.
 End Whole.
@@ -311,7 +457,7 @@ Section WholeEval.
   Theorem eval_whole_expression dh tbl vars locals bi segs ts tail :
     forallb seg_ok segs = true -> has_char ch_open tail = false ->
     has_char ch_tick (expr_text segs tail) = true ->
-    Forall2 (fun s t => resolve_group has locate (sg_g s) = Ret t) segs ts ->
+    Forall2 (fun s t => seg_out has locate s = Ret t) segs ts ->
     (forall l, bi = Some l -> (l < List.length dh)%nat) ->
     snd (eval_M V has locate pyeval dh tbl vars (expr_text segs tail) locals bi)
       = convert V (pyeval (expr_subst segs ts tail)
@@ -329,8 +475,8 @@ Section WholeEval.
   Theorem eval_whole_expression_error dh tbl vars locals bi segs1 ts s segs2 tail e :
     forallb seg_ok (segs1 ++ s :: segs2) = true -> has_char ch_open tail = false ->
     has_char ch_tick (expr_text (segs1 ++ s :: segs2) tail) = true ->
-    Forall2 (fun s t => resolve_group has locate (sg_g s) = Ret t) segs1 ts ->
-    resolve_group has locate (sg_g s) = Raise e ->
+    Forall2 (fun s t => seg_out has locate s = Ret t) segs1 ts ->
+    seg_out has locate s = Raise e ->
     eval_M V has locate pyeval dh tbl vars (expr_text (segs1 ++ s :: segs2) tail) locals bi = ((dh, vars), ERaise e).
   Proof.
     intros Hs Ht Hb HF He. apply eval_rewrite_error.
